@@ -107,3 +107,32 @@ template<typename T, size_t N> struct divs<T,N,true> { static void run(unsigned 
     if (bad >= 0) std::printf(" pos=%ld", bad);
     std::printf("\n"); } };
 template<typename T, size_t N> void run_rdivs(unsigned seed, int k) { divs<T,N>::run(seed, k); }
+
+// D op= scalar with a scalar of a DIFFERENT arithmetic type S (double tensor with a float or int scalar, float tensor
+// with an int or double scalar whose value is exactly representable in T, integer tensors with a narrower integer):
+// + - * bit for bit against (T)d op (T)s, / within 2 ulp for floating T (documented reciprocal-multiply), exact for integral T
+template<typename T, typename S, size_t N, int OP>
+void run_rscal(unsigned seed, int k) {
+    static const char* opn[] = {"set", "add", "sub", "mul", "div"};
+    long bad = -1; long worst = 0;
+    for (int mode = 0; mode < 3 && bad < 0; mode += 2) for (int rep = 0; rep < 4 && bad < 0; ++rep) {
+        uint32_t s = seed * 7919u + mode * 131u + rep;
+        Tensor<T,N> D, D0; for (size_t i = 0; i < N; ++i) D(i) = gen<T>::v(s, mode);
+        D0 = D;
+        S sc = std::is_integral<S>::value ? (S)(k + rep) : (S)((double)k + 0.5 * (double)(rep & 1));   // exactly representable in float
+        if (OP == 1) D += sc; else if (OP == 2) D -= sc; else if (OP == 3) D *= sc; else D /= sc;
+        for (size_t i = 0; i < N; ++i) {
+            T d = D0(i), t = (T)sc;
+            if (OP == 4 && !std::is_integral<T>::value) { long u = ulpdiff<double>((double)(T)D(i), (double)(T)(d / t)); if (sizeof(T) == 4) u = ulpdiff<float>((float)D(i), (float)(d / t));
+                if (u > worst) worst = u; if (u > 2) { bad = i; break; } }
+            else { T want = OP == 1 ? sref<T>::out(sref<T>::get(d) + sref<T>::get(t)) : OP == 2 ? sref<T>::out(sref<T>::get(d) - sref<T>::get(t))
+                          : OP == 3 ? sref<T>::out(sref<T>::get(d) * sref<T>::get(t)) : (T)(d / t);
+                   if (!same(want, (T)D(i))) { bad = i; break; } }
+        }
+    }
+    std::printf("rscal cfg=%s T=%s S=%s n=%zu op=%s k=%d | %s", CFGNAME, tn<T>::n(), sizeof(S) == 8 ? (std::is_integral<S>::value ? "i64" : "f64") : (std::is_integral<S>::value ? "i32" : "f32"),
+                N, opn[OP], k, bad < 0 ? "ok" : "FAIL");
+    if (bad >= 0) std::printf(" pos=%ld", bad);
+    if (OP == 4) std::printf(" worst_ulp=%ld", worst);
+    std::printf("\n");
+}
